@@ -286,6 +286,7 @@ func regConfig(dir string, lo, hi int, resume bool) torrent.Config {
 	cfg.BlocklistURL = ""
 	cfg.CustomStorage = memProvider{}
 	cfg.TrackerStopTimeout = 50 * time.Millisecond
+	cfg.MaxTorrentSize = 64 << 10
 	return cfg
 }
 
@@ -368,6 +369,12 @@ func (e *regEnv) add(m map[string]string) string {
 		t, err = e.ses.AddURI(regMagnet(m), opt)
 	case "bad":
 		t, err = e.ses.AddTorrent(bytes.NewReader(unhex(m["bytes"])), opt)
+	case "oversize":
+		// a well-formed .torrent that is longer than Config.MaxTorrentSize (64 KiB in this suite) because of a long
+		// comment: it must be refused, whichever entry point hands it to the session
+		b := regTorrentBytes(atoi(m["tid"]), tokName(m["name"]), nil, nil)
+		b = append([]byte("d7:comment"+strconv.Itoa(atoi(m["pad"]))+":"), append(bytes.Repeat([]byte{'c'}, atoi(m["pad"])), b[1:]...)...)
+		t, err = e.ses.AddTorrent(bytes.NewReader(b), opt)
 	case "baduri":
 		t, err = e.ses.AddURI(string(unhex(m["uri"])), opt)
 	default:
@@ -820,6 +827,9 @@ func genRegistry(r *Rng, n int, tier string) []Case {
 				return fmt.Sprintf("add kind=m ih=%s name=%s trk=%s pe=%s %s", ih, nm, trk, plusList(pe), flags)
 			default:
 				if r.Bool() {
+					if r.Chance(30) {
+						return fmt.Sprintf("add kind=oversize tid=%d name=n%d pad=%d %s", r.Range(1, 9), r.Range(1, 9), r.Pick(65536, 70000, 200000), flags)
+					}
 					return fmt.Sprintf("add kind=bad bytes=%s %s", hexs(r.Bytes(r.Range(0, 12))), flags)
 				}
 				uri := r.Pick(0, 1, 2)
